@@ -22,6 +22,7 @@ class Wb2CsrWorld(World):
     fault_kinds = ("select_mask_partial", "select_mask_zero", "back_to_back", "spaced",
                    "cyc_without_stb", "stb_without_cyc", "idle_signal_churn",
                    "second_instance_in_process", "release_in_ack_cycle", "domain_reset_mid_transfer")
+    real_components = ("csr.wishbone.WishboneCSRBridge", "csr.Multiplexer (30 % of the runs)")
     assumptions = (
         "a reset of the clock domain returns the component to its initial state (the state the "
         "property calls initial is the state after reset, as for every Amaranth register)",
@@ -50,8 +51,18 @@ class Wb2CsrWorld(World):
         ratio = ww // cw
         caw = rng.range(max(1, log2(ratio)) if not rng.chance(0.05) else 1,
                         8 if not rng.chance(0.1) else 12)
-        return {"cw": cw, "ww": ww, "caw": caw, "decoy": int(rng.chance(0.1)),
-                "decoy_first": int(rng.chance(0.5))}
+        cfg = {"cw": cw, "ww": ww, "caw": caw, "decoy": int(rng.chance(0.1)),
+               "decoy_first": int(rng.chance(0.5)), "target": "stub"}
+        if rng.chance(0.3) and caw <= 8:
+            # the CSR side is a real multiplexer over register stubs, packed so that several
+            # registers share one Wishbone word and some span two
+            cfg["target"] = "mux"
+            cfg["regs"] = [{"w": rng.choice([1, cw - 1, cw, cw, cw + 1, 2 * cw, 3 * cw]),
+                            "acc": rng.choice(["r", "w", "rw", "rw"]),
+                            "skip": rng.choice([0, 0, 0, 1, 2])}
+                           for _ in range(rng.range(1, 7))]
+            cfg["hwseed"] = rng.bits(32)
+        return cfg
 
     def gen_ops(self, rng, config, prop):
         cw, ww, caw = config["cw"], config["ww"], config["caw"]
@@ -74,6 +85,174 @@ class Wb2CsrWorld(World):
         return ops
 
     def run(self, config, ops, props, stats, hist):
+        if config.get("target") == "mux":
+            return self.run_mux(config, ops, stats, hist)
+        return self.run_stub(config, ops, props, stats, hist)
+
+    def run_mux(self, config, ops, stats, hist):
+        """The bridge in front of a real csr.Multiplexer: per transfer, the registers see exactly
+        the strobes the transfer implies (first chunk read / last chunk written among the selected
+        granules), once, no later than the acknowledge, with their own slice of the write data;
+        a register that lies inside the word reads back as one snapshot; nothing strobes between
+        transfers."""
+        from amaranth_soc import csr
+        from amaranth_soc.csr.wishbone import WishboneCSRBridge
+        from amaranth_soc.memory import MemoryMap
+        from simkit.rng import cval
+        cw, ww, caw = config["cw"], config["ww"], config["caw"]
+        ratio = ww // cw
+        mm = MemoryMap(addr_width=caw, data_width=cw)
+        regs = []
+        cursor = 0
+        for i, rc in enumerate(config["regs"]):
+            reg = hw.MockReg(int(rc["w"]), rc["acc"])
+            try:
+                s_, e_ = mm.add_resource(reg, name=(f"r{i}",), addr=cursor + int(rc.get("skip") or 0),
+                                         size=max(1, (int(rc["w"]) + cw - 1) // cw))
+            except ValueError:
+                continue
+            cursor = e_
+            regs.append((reg, s_, e_, int(rc["w"]), rc["acc"]))
+        if not regs:
+            raise hw.Refused("no register fits")
+        mux = csr.Multiplexer(mm)
+        dut = hw.must_accept("C10", f"WishboneCSRBridge(multiplexer {caw}x{cw}, data_width={ww})",
+                             WishboneCSRBridge, mux.bus, data_width=ww) \
+            if caw >= max(1, log2(ratio)) else hw.construct(WishboneCSRBridge, mux.bus, data_width=ww)
+        wb = dut.wb_bus
+        top, rst = hw.make_top_with_reset(dut, mux)
+        sim = hw.build_sim(top)
+        waw = len(wb.adr)
+        cmask = (1 << cw) - 1
+        hwseed = int(config.get("hwseed", 0))
+        first_at = {s_: j for j, (r, s_, e_, w, a) in enumerate(regs) if "r" in a}
+        last_at = {e_ - 1: j for j, (r, s_, e_, w, a) in enumerate(regs) if "w" in a}
+        stats.probe("real_multiplexer_target")
+        if any(s_ // ratio != (e_ - 1) // ratio for r, s_, e_, w, a in regs):
+            stats.probe("register_spans_two_wishbone_words")
+
+        async def tb(ctx):
+            p = hw.Pins(ctx)
+            t = 0
+
+            def drive_regs():
+                for j, (r, s_, e_, w, a) in enumerate(regs):
+                    if "r" in a and w:
+                        p.set(r.element.r_data, cval(hwseed, j, t, w))
+
+            def watch(events):
+                for j, (r, s_, e_, w, a) in enumerate(regs):
+                    if "r" in a and p.get(r.element.r_stb):
+                        events.append((j, "r", p.get(r.element.r_data) if w else 0, t))
+                    if "w" in a and p.get(r.element.w_stb):
+                        events.append((j, "w", p.get(r.element.w_data) if w else 0, t))
+
+            for op in ops:
+                adr = (int(op.get("adr", 0)) & ((1 << waw) - 1)) if waw else 0
+                sel = int(op.get("sel", 0)) & ((1 << ratio) - 1)
+                dat = int(op.get("dat", 0)) & ((1 << ww) - 1)
+                we = int(op.get("we", 0)) & 1
+                # ---- idle gap: nothing may strobe -------------------------------------------
+                p.set(wb.cyc, 0)
+                p.set(wb.stb, 0)
+                idle_ev = []
+                for _ in range(min(int(op.get("gap", 0)), 3)):
+                    drive_regs()
+                    watch(idle_ev)
+                    t += 1
+                    await ctx.tick()
+                # ---- the transfer ------------------------------------------------------------
+                if waw:
+                    p.set(wb.adr, adr)
+                p.set(wb.we, we)
+                p.set(wb.sel, sel)
+                p.set(wb.dat_w, dat)
+                p.set(wb.cyc, 1)
+                p.set(wb.stb, 1)
+                events = []
+                acked_at = None
+                data = 0
+                for c in range(ratio + 4):
+                    drive_regs()
+                    watch(events)
+                    if p.get(wb.ack):
+                        acked_at = c
+                        data = p.get(wb.dat_r)
+                        break
+                    t += 1
+                    await ctx.tick()
+                stats.checks += 1
+                if acked_at != ratio + 1:
+                    raise Violation("C10", "ack-late-or-missing" if acked_at is None or
+                                    acked_at > ratio + 1 else "ack-early-or-repeated", t,
+                                    f"ack after {acked_at} cycles, due after {ratio + 1}")
+                rel = int(op.get("rel") or 0) & 3
+                if rel:
+                    p.set(wb.cyc, 0 if rel in (1, 3) else 1)
+                    p.set(wb.stb, 0 if rel in (1, 2) else 1)
+                    stats.fault("release_in_ack_cycle")
+                t += 1
+                await ctx.tick()
+                p.set(wb.cyc, 0)
+                p.set(wb.stb, 0)
+                drive_regs()
+                late = []
+                watch(late)
+                if idle_ev or late:
+                    ev = (idle_ev or late)[0]
+                    raise Violation("C10", "register-strobe-outside-transfer", t,
+                                    f"register r{ev[0]} saw {'r_stb' if ev[1] == 'r' else 'w_stb'} "
+                                    f"while no transfer was in progress")
+                # ---- what this transfer implies ---------------------------------------------
+                want = []
+                for k in range(ratio):
+                    if not (sel >> k) & 1:
+                        continue
+                    a = (adr * ratio + k) & ((1 << caw) - 1)
+                    if not we and a in first_at:
+                        want.append((first_at[a], "r"))
+                    if we and a in last_at:
+                        want.append((last_at[a], "w"))
+                got = [(j, kind) for j, kind, v, tt in events]
+                stats.checks += 1
+                if sorted(got) != sorted(want):
+                    extra = [g for g in got if g not in want]
+                    raise Violation("C10", "register-strobed-twice-or-unexpectedly" if extra else
+                                    "write-side-effect-not-done-by-the-acknowledge", t,
+                                    f"word {adr:#x} sel {sel:#b} we={we}: registers saw "
+                                    f"{[(f'r{j}', k_) for j, k_ in got]}, the transfer implies "
+                                    f"{[(f'r{j}', k_) for j, k_ in want]}")
+                for j, kind, v, tt in events:
+                    r, s_, e_, w, a = regs[j]
+                    inside = s_ // ratio == adr and (e_ - 1) // ratio == adr and \
+                        all((sel >> (x - adr * ratio)) & 1 for x in range(s_, e_))
+                    if not inside or not w:
+                        continue
+                    lo = (s_ - adr * ratio) * cw
+                    if kind == "w":
+                        stats.checks += 1
+                        exp = (dat >> lo) & ((1 << w) - 1)
+                        if v != exp:
+                            raise Violation("C10", "register-written-with-wrong-slice", t,
+                                            f"r{j} ({w} bits at granule {s_ - adr * ratio}): "
+                                            f"w_data={v:#x}, its slice of dat_w is {exp:#x}")
+                        stats.work += 1
+                    else:
+                        stats.checks += 1
+                        n_ch = (w + cw - 1) // cw
+                        got_v = (data >> lo) & ((1 << (n_ch * cw)) - 1)
+                        if got_v != v:
+                            raise Violation("C10", "register-read-not-atomic-or-wrong-lane", t,
+                                            f"r{j}: acknowledged lanes carry {got_v:#x}, the value "
+                                            f"presented when its first chunk was read was {v:#x}")
+                        stats.work += 1
+                stats.state("sequencer(ratio,pos,stb,b2b)", f"({ratio},mux,{we},{int(bool(sel))})")
+                hist.rec(t, adr, sel, we, got, data if not we else None)
+            stats.cycles += t
+
+        hw.run_tb(sim, tb)
+
+    def run_stub(self, config, ops, props, stats, hist):
         from amaranth_soc import csr
         from amaranth_soc.csr.wishbone import WishboneCSRBridge
         from amaranth_soc.memory import MemoryMap
